@@ -42,6 +42,23 @@ def mergeCh : List Ch → List Ch
 termination_by l => l.length
 
 mutual
+/-- what the server renders for the children of `NoHydrate` (hydration mode off): elements without a
+hydration key (modelled as a leading attribute `[2]`), no slash-comment markers around dynamic views, no
+t-comment markers around dynamic text; the client never looks at any of it -/
+def frozenOf (σ : Store) : Inst → List Ch
+  | .el _ tag attrs cs => [.el tag (([2], []) :: evalAttrs σ attrs) (mergeCh (frozenOfList σ cs))]
+  | .text _ s => [.text s]
+  | .dynText _ sig => [.text (natToStr (σ.get sig))]
+  | .dynView _ _ _ _ cur => frozenOfList σ cur
+  | .show _ _ sig cs => if σ.get sig % 2 = 1 then frozenOfList σ cs else []
+  | .frag cs => frozenOfList σ cs
+  | .island cs => frozenOfList σ cs
+def frozenOfList (σ : Store) : InstList → List Ch
+  | .nil => []
+  | .cons i rest => frozenOf σ i ++ frozenOfList σ rest
+end
+
+mutual
 /-- the children the SERVER renders for an instance (before text merging) and the appends the CLIENT
 build performs for the same instance -/
 def ssrOf (σ : Store) : Inst → List Ch × List Pend
@@ -58,6 +75,7 @@ def ssrOf (σ : Store) : Inst → List Ch × List Pend
     if σ.get sig % 2 = 1 then ([.cmt [47]] ++ c ++ [.cmt [47]], [.marker] ++ p ++ [.marker])
     else ([.cmt [47], .cmt [47]], [.marker, .marker])
   | .frag cs => ssrOfList σ cs
+  | .island cs => (frozenOfList σ cs, [])      -- rendered without keys and markers, skipped by the client
 def ssrOfList (σ : Store) : InstList → List Ch × List Pend
   | .nil => ([], [])
   | .cons i rest =>
@@ -105,7 +123,8 @@ def hydrateFirstUnadopted : Nat → List Ch → Str → List (Str × Str) → Li
   | 0, _, _, _, _ => .error .shape
   | _ + 1, [], _, _, _ => .error .shape
   | fuel + 1, .el t as ks :: r, tag, attrs, kids =>
-    if as.head? = some ([1], []) then
+    -- skip elements that are already adopted (`[1]`) and elements without a key (`[2]`, `NoHydrate`)
+    if as.head? = some ([1], []) || as.head? = some ([2], []) then
       match hydrateFirstUnadopted fuel r tag attrs kids with
       | .error e => .error e
       | .ok r => .ok (.el t as ks :: r)
@@ -118,6 +137,36 @@ def hydrateFirstUnadopted : Nat → List Ch → Str → List (Str × Str) → Li
     match hydrateFirstUnadopted fuel r tag attrs kids with
     | .error e => .error e
     | .ok r => .ok (c :: r)
+end
+
+mutual
+/-- a `NoHydrate` subtree after hydration: the server nodes for the initial store, never updated -/
+def freezeInst (σ : Store) : Inst → Inst
+  | .el id tag attrs cs => .el id tag ((evalAttrs σ attrs).map fun (n, v) => (n, .static v)) (freezeList σ cs)
+  | .text id s => .text id s
+  | .dynText id sig => .text id (natToStr (σ.get sig))
+  | .dynView _ _ _ _ cur => .frag (freezeList σ cur)
+  | .show _ _ sig cs => if σ.get sig % 2 = 1 then .frag (freezeList σ cs) else .frag .nil
+  | .frag cs => .frag (freezeList σ cs)
+  | .island cs => .frag (freezeList σ cs)
+def freezeList (σ : Store) : InstList → InstList
+  | .nil => .nil
+  | .cons i rest => .cons (freezeInst σ i) (freezeList σ rest)
+end
+
+mutual
+/-- the instance a hydrated document behaves like afterwards: islands frozen at the initial store -/
+def afterHydration (σ : Store) : Inst → Inst
+  | .el id tag attrs cs => .el id tag attrs (afterHydrationList σ cs)
+  | .text id s => .text id s
+  | .dynText id sig => .dynText id sig
+  | .dynView a b sig alts cur => .dynView a b sig alts (afterHydrationList σ cur)
+  | .show a b sig cs => .show a b sig (afterHydrationList σ cs)
+  | .frag cs => .frag (afterHydrationList σ cs)
+  | .island cs => .frag (freezeList σ cs)
+def afterHydrationList (σ : Store) : InstList → InstList
+  | .nil => .nil
+  | .cons i rest => .cons (afterHydration σ i) (afterHydrationList σ rest)
 end
 
 /-- size measure used as fuel -/
